@@ -132,6 +132,10 @@ static void one_case(long long n, uint64_t seed, const std::string& dir)
 					std::vector<Message *> v;
 					for (int k = 0; k < b; ++k, ++i) v.push_back(mk_order("t" + std::to_string(t) + "_" + std::to_string(i), tr.chance(10) ? (size_t)tr.range(1, 600) : 0));
 					ses.send_batch(v);
+				} else if (pm == pm_thread && tr.chance(30)) {
+					// the by-reference overload (not available when pipelining): the caller keeps the message
+					std::unique_ptr<Message> m(mk_order("t" + std::to_string(t) + "_" + std::to_string(i), tr.chance(10) ? (size_t)tr.range(1, 600) : 0));
+					ses.send(*m); ++i;
 				} else { ses.send(mk_order("t" + std::to_string(t) + "_" + std::to_string(i), tr.chance(10) ? (size_t)tr.range(1, 600) : 0)); ++i; }
 			}
 		});
